@@ -120,9 +120,30 @@ def le_value(hexstr):
     return int.from_bytes(b, "little"), len(b) * 8
 
 
+def compare_scan(inp, impl, model):
+    w = inp.split()
+    hz = [int(x) for x in w[3:w.index("R")]]
+    rt = [int(x) for x in w[w.index("R") + 1:]]
+    kept = [int(x) for x in impl[1:impl.index("F")]]
+    freed = [int(x) for x in impl[impl.index("F") + 1:]]
+    for p in freed:
+        if p in hz:
+            return "@freed-guarded: scan handed object %d to the disposer while a hazard pointer equals it" % p
+    for p in rt:
+        if p not in hz and p not in freed:
+            return "@kept-unguarded: scan kept object %d although no hazard pointer equals it" % p
+    if sorted(kept + freed) != sorted(rt):
+        return "@lost-or-duplicated: kept+freed is not the retired array"
+    if impl != model:
+        return "model and implementation disagree: model " + " ".join(model)
+    return None
+
+
 def compare_seq(inp, impl, model):
     w = inp.split()
     kind = w[0]
+    if kind == "scan":
+        return compare_scan(inp, impl, model)
     if kind == "counter":
         if impl != model:
             return "model and implementation disagree"
